@@ -1,23 +1,25 @@
 """C18 — merging fonts preserves each input's characters (fontTools.merge.Merger().merge).
 
-(M) MC_Merge: the Merge machine of specs/Merge.tla (computeMegaGlyphOrder, computeMegaCmap with the duplicate
-    rule, per-table merge, layout concatenation with glyph / lookup index shifting and per script-language-tag
-    feature merging, post-merge compaction) over every ordered list of 2 (large family) and 3 (small family)
-    abstract fonts: FirstWins, UniqueNames, DuplicateRule, DisjointShaping (OTLSem shaping of every text up to
-    length 2), Totals, plus the equivalence of the relational form of the naming stage the judge uses.  A run with
-    idf = TRUE (the documented identification of equal duplicates, disabled in the code) satisfies the same
-    properties; a run with eight deliberately wrong stage variants must report every one (NEG); witnesses (WIT)
-    show that no antecedent is vacuous.  The same module emits the lists of abstract fonts (GEN).
+(M) MC_Merge (one TLC run, MC_Merge.cfg / MC_Merge_thorough.cfg): the Merge machine of specs/Merge.tla
+    (computeMegaGlyphOrder, computeMegaCmap with the duplicate rule, per-table merge, layout concatenation with glyph /
+    lookup index shifting and per script-language-tag feature merging, post-merge compaction) over every ordered
+    list of 2 (large family) and 3 (small family) abstract fonts: FirstWins, UniqueNames, DuplicateRule,
+    DisjointShaping (OTLSem shaping of every short text), Totals, the equivalence of the relational form of the
+    naming stage the judge uses, and of the one-shot operator MergeAll with the machine.  The same run explores
+    idf = TRUE (the documented identification of equal duplicates, disabled in the code: same properties) and eight
+    deliberately wrong stage variants, each of which must be reported (NEG); witnesses (WIT) show that no antecedent
+    is vacuous.  A second run (MC_Merge_gen*.cfg) emits the lists of abstract fonts (GEN) for (R).
 (R) every emitted list (a seeded sample in the quick tier; 2, 3 and 4 fonts) is realised as real font files
     (FontBuilder, TrueType and CFF flavours alternating, GSUB/GPOS compiled by feaLib), checked to project back
     to the abstract fonts, and merged by the REAL Merger; hand-written richer lists (ligatures, chains with two
-    nested lookups, pair kerning, several scripts/languages) likewise.
-(V) ordered pairs / triples / quadruples of corpus fonts (binaries and compiled whole-font TTX) with equal
-    unitsPerEm and outline flavour, seed-rotated; each list as it is (overlapping characters: FirstWins /
-    DuplicateRule) and with the fonts' characters relocated to disjoint private-use blocks (DisjointShaping).
+    nested lookups, an Extension-wrapped chain, pair kerning, several scripts/languages, duplicates) likewise.
+(V) ordered pairs / triples / quadruples of corpus fonts (binaries; in the thorough tier also the compiled whole-font
+    TTX files) with equal unitsPerEm and outline flavour, seed-rotated; each list as it is (overlapping characters:
+    FirstWins / DuplicateRule) and with the fonts' characters relocated to disjoint private-use blocks (DisjointShaping).
 Every case is recorded as projections of the inputs and of the saved result plus HarfBuzz shaping of probe texts
 on every input alone and on the merged font; Trace_C18 (TLC) decides every clause.  Model cases are in addition
 compared with what Merge!MergeAll predicts (tables exactly, shaping through OTLSem on the predicted layout).
+Python only drives and records.
 """
 import json
 import os
